@@ -4,7 +4,8 @@
 dir=$1; shift
 mkdir -p "$dir"
 [ -d "$dir/src" ] || git -C /repo worktree add -q --detach "$dir/src" HEAD || exit 2
-export KEVO_SRC=$dir/src VERIF_BIN=$dir/bin VERIF_OUT=$dir/out
+rm -rf "$dir/mc"; cp -r /verif/mc "$dir/mc"   # harness sources are frozen for the run (edits in /verif/mc do not disturb it)
+export KEVO_SRC=$dir/src VERIF_BIN=$dir/bin VERIF_OUT=$dir/out VERIF_MC=$dir/mc
 ids="$@"; [ -z "$ids" ] && ids=$(ls /verif/seeded)
 for id in $ids; do
   m=/verif/seeded/$id/meta.json; [ -f "$m" ] || continue
